@@ -34,6 +34,20 @@ def derive_seed(seed: int, *parts: Any) -> int:
     return int(hashlib.sha1(blob).hexdigest()[:12], 16)
 
 
+def plain_generation() -> None:
+    """Switch off Hypothesis' span mutator (it re-runs each example a few times with one drawn value copied over
+    another draw of the same label).  Our generators encode categorical choices as small integers, so the mutator
+    skews exactly those choices towards values drawn elsewhere in the example and spends 5 of 6 executions on
+    near-duplicates; measured on the symmetry template: 28 instead of 6 of 400 programs had the rare shape
+    'outer literal next to the aggregate'.  Every example is then an independent draw from the strategy."""
+    try:
+        from hypothesis.internal.conjecture import engine  # pylint: disable=import-outside-toplevel
+
+        engine.ConjectureRunner.generate_mutations_from = lambda self, data: None  # type: ignore
+    except Exception:  # pylint: disable=broad-except
+        pass
+
+
 def load_prop(pid: str) -> Any:
     """import ngoverif.props.<pid>"""
     return importlib.import_module(f"ngoverif.props.{pid.lower()}")
@@ -153,6 +167,7 @@ def worker(pid: str, tier: str, seed: int, shard: int, nshards: int, outpath: st
     from hypothesis import seed as hseed  # pylint: disable=import-outside-toplevel
     from hypothesis import strategies as st  # pylint: disable=import-outside-toplevel
 
+    plain_generation()
     mod = load_prop(pid)
     stats = Stats()
     t0 = time.time()
